@@ -42,12 +42,25 @@ class Recorder:
             self.shapes.add(hashlib.sha256(json.dumps(ops, default=str).encode()).hexdigest())
 
 
+def shrink_history(history: list, simplify) -> list:
+    """Candidate histories: drop one op (never the last, failing one), then
+    simplify single arguments with ``simplify(op) -> iterable of simpler ops``."""
+    out = []
+    for i in range(len(history) - 1):
+        out.append(history[:i] + history[i + 1 :])
+    for i, op in enumerate(history):
+        for simpler in simplify(op):
+            if simpler != op:
+                out.append(history[:i] + [simpler] + history[i + 1 :])
+    return out
+
+
 def run_machine(machine_factory, hyp_seed: int, max_examples: int, step_count: int):
     """Run a RuleBasedStateMachine class (built by ``machine_factory()``) with a
     fixed seed, database off, deadline off.  Returns None or the
     HistoryViolation of the shrunk failing example."""
     import hypothesis
-    from hypothesis import HealthCheck, settings
+    from hypothesis import HealthCheck, Phase, settings
     from hypothesis.stateful import run_state_machine_as_test
 
     machine = machine_factory()
@@ -60,6 +73,10 @@ def run_machine(machine_factory, hyp_seed: int, max_examples: int, step_count: i
         suppress_health_check=list(HealthCheck),
         print_blob=False,
         derandomize=False,
+        # generation only: Hypothesis' own shrinker needs minutes on these heavy
+        # rules; the harness shrinks the recorded op list instead (drop ops,
+        # simplify arguments), in parallel and under the same-signature rule
+        phases=[Phase.generate],
     )
     try:
         run_state_machine_as_test(hypothesis.seed(hyp_seed)(machine), settings=st)
